@@ -85,7 +85,13 @@ pub fn all_filter_sequences(max: usize) -> Vec<Vec<F>> {
     let mut singles = Vec::new();
     for (ai, a) in ACTIONS.iter().enumerate() {
         for (ni, n) in FILTER_NAMES.iter().enumerate() {
-            singles.push(F { action: a.to_string(), header: n.to_string(), value: format!("v{ai}{ni}") });
+            // values overlap with the header values ("a", "") so that "already has this value" is reachable
+            let value = match (ai + ni) % 3 {
+                0 => "a".to_string(),
+                1 => String::new(),
+                _ => format!("v{ai}{ni}"),
+            };
+            singles.push(F { action: a.to_string(), header: n.to_string(), value });
         }
     }
     let mut out: Vec<Vec<F>> = vec![vec![]];
